@@ -3535,7 +3535,7 @@ class __implementations__:
 
     @implements(numpy.transpose)
     def transpose(array: Array, axes: Optional[Sequence[int]] = None) -> Array:
-        return _Transpose(array, tuple(reversed(range(array.ndim)) if axes is None else axes))
+        return _Transpose(array, tuple(reversed(range(array.ndim)) if axes is None else (numeric.normdim(array.ndim, axis) for axis in axes)))
 
     @implements(numpy.repeat)
     def repeat(array: IntoArray, n: IntoArray, axis: int) -> Array:
